@@ -86,7 +86,7 @@ GoodMarks == {B("M", 0, rem, s, "", "") : rem \in 1 .. 2, s \in 0 .. 1}
 \* which sector + length leaves the 64-bit range (2^64 - sector: wraps to 0; one more: wraps to 1), in both states
 \* (a PENDING marker is repaired, a COMPLETE one is skipped: different arithmetic on the same field)
 ForgedMarks == {B("M", 0, 0, 1, "", "rem0"), B("M", 0, NB + 5, 1, "", "rempast")}
-               \cup {B("M", 0, NB + 5, st, "", tg) : st \in 0 .. 1, tg \in {"remmax", "remwrap", "remwrap1"}}
+               \cup {B("M", 0, NB + 5, ms, "", tg) : ms \in 0 .. 1, tg \in {"remmax", "remwrap", "remwrap1"}}
 Junk == {B("Xm", 0, 0, 0, "", ""), B("LM", 0, 0, 0, "", ""), B("X", 0, 0, 0, "", "")}
 
 BlkAll == {Bz} \cup Heads \cup Tails({"", "H", "M", "Xh", "Xm"}) \cup BadHeads \cup ForgedValid \cup GoodMarks \cup ForgedMarks \cup Junk
